@@ -132,8 +132,19 @@ pub fn run<R: Send + 'static>(
     bodies: Vec<Box<dyn FnOnce() -> R + Send>>,
     schedule: &[u8],
 ) -> RunResult<R> {
+    run_with_inline(None, bodies, schedule)
+}
+
+/// As `run`, with an optional body that runs on the *calling* thread as scheduled thread 0
+/// (the spawned bodies are threads 1..): lets the thread that created a mock take part in the race.
+pub fn run_with_inline<'a, R: Send + 'static>(
+    inline: Option<Box<dyn FnOnce() -> R + 'a>>,
+    bodies: Vec<Box<dyn FnOnce() -> R + Send>>,
+    schedule: &[u8],
+) -> RunResult<R> {
     install();
-    let n = bodies.len();
+    let off = inline.is_some() as usize;
+    let n = bodies.len() + off;
     let sched = Arc::new(Sched {
         state: Mutex::new(State {
             current: 0,
@@ -154,7 +165,8 @@ pub fn run<R: Send + 'static>(
         st.switches = 0;
     }
     let mut handles = vec![];
-    for (tid, body) in bodies.into_iter().enumerate() {
+    for (i, body) in bodies.into_iter().enumerate() {
+        let tid = i + off;
         let sched = sched.clone();
         handles.push(std::thread::spawn(move || {
             CURRENT.with(|c| *c.borrow_mut() = Some((tid, sched.clone())));
@@ -166,6 +178,22 @@ pub fn run<R: Send + 'static>(
         }));
     }
     let mut results = vec![];
+    if let Some(body) = inline {
+        CURRENT.with(|c| *c.borrow_mut() = Some((0, sched.clone())));
+        sched.start(0);
+        let r = std::panic::catch_unwind(std::panic::AssertUnwindSafe(body));
+        CURRENT.with(|c| *c.borrow_mut() = None);
+        sched.finish(0);
+        match r {
+            Ok(r) => results.push(r),
+            Err(p) => {
+                for h in handles {
+                    let _ = h.join();
+                }
+                panic!("HARNESS: inline scheduled body panicked: {}", vcore::panics::payload_to_string(p))
+            }
+        }
+    }
     for h in handles {
         match h.join() {
             Ok(r) => results.push(r),
